@@ -302,6 +302,79 @@ class SSet(Sym):
     def clear(self):
         self.t = z3.EmptySet(self.T.V)
 
+    def __vc_comp__(self, vc, kind, ordinal, elt, cond):
+        """{elt(x) for x in self if cond(x)}: cond and elt are summarised on one fresh element (all paths
+        merged).  An identity element expression gives the filtered set exactly, as a lambda term; any other
+        element expression needs `theory.set_image(elt_term, x, filtered set)` (a spec function of the sidecar)."""
+        from . import vcrt
+        T = self.T
+        outer = ctx()
+        x = z3.Const('setx!%d' % next(vcrt._COMP_COUNTER), T.V)
+        cases = vcrt.summarize(lambda: vcrt._cond_elt(cond, elt, T.lower(x), T), outer)
+        cond_t, elt_t = None, None
+        for pc, (c, e) in reversed(cases):
+            g = z3.And(pc) if pc else z3.BoolVal(True)
+            cond_t = c if cond_t is None else z3.If(g, c, cond_t)
+            elt_t = e if elt_t is None else z3.If(g, e, elt_t)
+        alg = _set_algebra(z3.simplify(cond_t), x, T.V)
+        if z3.is_true(z3.simplify(cond_t)):
+            filt = self.t
+        elif alg is not None:         # the filter is a boolean combination of memberships: plain set algebra
+            filt = z3.SetIntersect(self.t, alg)
+        else:
+            filt = z3.Lambda([x], z3.And(z3.IsMember(x, self.t), cond_t))
+        ident = z3.simplify(z3.Implies(cond_t, elt_t == x))
+        if not z3.is_true(ident):
+            sv = z3.Solver()
+            sv.set('rlimit', 2_000_000)
+            sv.add(z3.Not(ident))
+            if sv.check() == z3.unsat:
+                ident = z3.BoolVal(True)
+        if z3.is_true(ident):
+            return SSet(T, filt)
+        hook = getattr(T, 'set_image', None)
+        if hook is None:
+            raise OutOfSubset('image of a symbolic set under a non-identity element expression needs theory.set_image')
+        return SSet(T, hook(elt_t, x, filt))
+
+
+def _mentions(t, x):
+    todo, seen = [t], set()
+    while todo:
+        u = todo.pop()
+        if u.get_id() in seen:
+            continue
+        seen.add(u.get_id())
+        if u.eq(x):
+            return True
+        if z3.is_app(u):
+            todo.extend(u.children())
+        elif z3.is_quantifier(u):
+            return True
+    return False
+
+
+def _set_algebra(c, x, sort):
+    """{x | c(x)} as a set term when c is a boolean combination of `x in Q` (Q free of x); else None"""
+    if z3.is_true(c):
+        return z3.FullSet(sort)
+    if z3.is_false(c):
+        return z3.EmptySet(sort)
+    if z3.is_not(c):
+        r = _set_algebra(c.arg(0), x, sort)
+        return None if r is None else z3.SetComplement(r)
+    if z3.is_and(c) or z3.is_or(c):
+        parts = [_set_algebra(a, x, sort) for a in c.children()]
+        if any(p is None for p in parts):
+            return None
+        r = parts[0]
+        for p in parts[1:]:
+            r = z3.SetIntersect(r, p) if z3.is_and(c) else z3.SetUnion(r, p)
+        return r
+    if z3.is_select(c) and c.arg(1).eq(x) and not _mentions(c.arg(0), x):
+        return c.arg(0)
+    return None
+
 
 def make_set(items=()):
     if isinstance(items, SSet):
